@@ -74,7 +74,8 @@ def rule_result_shape(model: Model):
                 if isinstance(m, ast.Subscript) and isinstance(m.value, (ast.Name, ast.Attribute)):
                     mids.append(norm(m.value))
         ok = bool(mids) and all(x in aliases or x == msrc for x in mids)
-        wrong = sorted({x for x in mids if x in other_modes})
+        # a mode list read from another attribute of an operand (directly or through a local)
+        wrong = sorted({x for x in mids if x in other_modes or (x != msrc and x not in aliases and "." in x and x.rsplit(".", 1)[-1] in ("N", "M", "R"))})
         obs.append(Ob("RESULT-SHAPE", k, OK if ok else (VIOLATED if wrong else ERROR), model.where(f), f"result modes from {msrc}",
                       "result mode sizes taken from the operator's row modes / first factor" if ok else
                       (f"the result cores are reshaped with mode sizes from {wrong}; they must be {msrc}" if wrong else
@@ -155,9 +156,9 @@ def check(model: Model, tier: str):
     model.use_inlined("_dmrg.dmrg_matvec_python", "_dmrg.dmrg_hadamard_python")   # a shared private driver is read in place
     for fs in ("_dmrg.dmrg_matvec_python", "_dmrg.dmrg_hadamard_python", "_amen._amen_mm_python"):
         obs += rule_empty_reduce(model, fs)
-    exc = {("_amen._amen_mm_python", "sig:for:range(_)"): "read only in the verbose report after a zero-sweep run (nswp = 0)",
-           ("_amen._amen_mm_python", "sig:=binop | =call:datetime.datetime.now"): "verbose timing only", ("_amen._amen_mm_python", "sig:=binop | =call:datetime.datetime.now"): "verbose timing only"}
-    obs += rules.rule_defassign(model, [model.func(a) for a in ANCHORS], exc)
+    exc = {}
+    # progress output and the undocumented truncation option 'fro' are outside the property's quantifier: their guards are fixed
+    obs += rules.rule_defassign(model, [model.func(a) for a in ANCHORS], exc, domain="quantifier")
     obs += rule_result_shape(model)
     obs += rule_result_kind(model)
     eng = Effects(model)
